@@ -2,6 +2,10 @@ import LentilVerif.Lemmas.ZernikeFit
 import Mathlib.Tactic.NormNum
 import Mathlib.LinearAlgebra.Matrix.Notation
 import Mathlib.LinearAlgebra.Matrix.Determinant.Basic
+import Mathlib.Algebra.Order.Field.Basic
+import Mathlib.Algebra.Order.BigOperators.Ring.Finset
+import Mathlib.Tactic.Ring
+import Mathlib.Tactic.Linarith
 /-! # C12 — Zernike fit, compose and remove are mutually inverse for any mode set
 
 Property theorems only; the model (`zfit`, `zcompose`, `zremove` over a basis matrix `B` whose columns are the requested modes in
@@ -43,6 +47,21 @@ theorem remove_orthogonal_to_modes (B : Matrix P M R) (h : IsUnit (Bᵀ * B).det
   unfold zremove zcompose zfit pinvFR
   rw [Matrix.mulVec_sub, Matrix.mulVec_mulVec, Matrix.mulVec_mulVec, ← Matrix.mul_assoc]
   rw [Matrix.mul_nonsing_inv _ h, Matrix.one_mul, sub_self]
+
+/-- the fitted coefficients are the least-squares solution: no coefficient vector leaves a smaller residual
+(sum of squares over the samples) than `zernike_remove` does -/
+theorem fit_is_least_squares [Field R] [LinearOrder R] [IsStrictOrderedRing R] (B : Matrix P M R) (h : IsUnit (Bᵀ * B).det)
+    (opd : P → R) (c : M → R) :
+    zremove B opd ⬝ᵥ zremove B opd ≤ (opd - B *ᵥ c) ⬝ᵥ (opd - B *ᵥ c) := by
+  have e : opd - B *ᵥ c = zremove B opd + B *ᵥ (zfit B opd - c) := by
+    unfold zremove zcompose; rw [Matrix.mulVec_sub]; abel
+  have orth : zremove B opd ⬝ᵥ (B *ᵥ (zfit B opd - c)) = 0 := by
+    rw [dotProduct_mulVec, ← Matrix.mulVec_transpose, remove_orthogonal_to_modes B h opd, zero_dotProduct]
+  have orth' : (B *ᵥ (zfit B opd - c)) ⬝ᵥ zremove B opd = 0 := by rw [dotProduct_comm]; exact orth
+  have sq : 0 ≤ (B *ᵥ (zfit B opd - c)) ⬝ᵥ (B *ᵥ (zfit B opd - c)) := by
+    unfold dotProduct; exact Finset.sum_nonneg fun i _ => mul_self_nonneg _
+  rw [e, add_dotProduct, dotProduct_add, dotProduct_add, orth, orth']
+  linarith
 
 /-- the statements for Zernike bases: any list of modes in any order, either normalisation, any caller coordinates -/
 theorem fit_compose_zernike {K : Type} [Field K] (sqrtN : Nat → K) (cos sin : K → K) {k : Nat} (modes : Fin k → Nat)
